@@ -86,7 +86,7 @@ theorem lines_total (rx : Rx) (m : MState V) (hc : ConfigSafe m.cfg) (pre : List
 
 /-- **No input line can make the exporter panic or hang under any configuration the loader accepted.**
     Let `cfg` be the result of `load` on any raw configuration satisfying `LoaderAssumptions` (the objective law of
-    the number type; `uint32` age buckets), let it be the current configuration, and let the registry be safe
+    the number type), let it be the current configuration, and let the registry be safe
     (for instance empty). Then for every byte string `line` — any parser flags, any float parser, valid UTF-8 or
     not — processing the events of the line never ends in a `Panic` outcome, and the state it leaves is again
     safe under the same configuration. -/
